@@ -18,7 +18,9 @@ RULE = ('(a) unchecked parents of ANY of the 441 classes with Hypothesis-drawn h
         'runs a drawn history in lock-step with a free-standing checked twin and must show identical observations '
         '(rejections, missing-children verdicts); a checked root holding a valid word in which one child is an '
         'unchecked element stuffed with arbitrary children must serialise, with that child\'s content in insertion '
-        'order.  Non-trivial = a child sequence the checked twin rejects, or a mixed tree of depth>=3; distinct by '
+        'order; (d) the setting is per element: for every type, two elements born unchecked and later switched to '
+        'checking: children added to the first are not visible in the second, which accepts, rejects and serialises '
+        'exactly like an element checked from the start.  Non-trivial = a child sequence the checked twin rejects, or a mixed tree of depth>=3; distinct by '
         'case.')
 ASSUMPTIONS = ['children are unchecked stubs unless stated; checked descendants of an unchecked node inside a checked '
                'tree are not asserted either way']
@@ -141,6 +143,35 @@ def byte_identity(el, word):
     return None, 'compared'
 
 
+def per_element(el, word):
+    """the setting is per element: two elements born unchecked and switched to checking later do not share what is
+    added to one of them; the second one behaves like an element that was checked from the start"""
+    s = schema()
+    t = s.element_type[el]
+    inp = {'mode': 'per-element', 'element': el, 'word': list(word)}
+    ra, rb, rc = call(fresh, el, False), call(fresh, el, False), call(fresh, el, True)
+    if not (ra.ok and rb.ok and rc.ok):
+        return None, 'unbuildable'
+    a, b, c = ra.value, rb.value, rc.value
+    for x in (a, b):
+        if not call(setattr, x, 'xsd_check', True).ok:
+            return None, 'unbuildable'
+    for n in word:
+        call(a.add_child, stub(n))
+    for view in (True, False):
+        r = call(b.get_children, view)
+        if not r.ok or r.value:
+            return F('setting-not-per-element', t, inp,
+                     {'second element already holds': [k.name for k in r.value] if r.ok else r.etype}, r.site), 'compared'
+    vb = [call(b.add_child, stub(n)).verdict() for n in word]
+    vc = [call(c.add_child, stub(n)).verdict() for n in word]
+    sb, sc = call(b.to_string), call(c.to_string)
+    if vb != vc or sb.verdict() != sc.verdict() or (sb.ok and sb.value != sc.value):
+        return F('setting-not-per-element', t, inp, {'late-checked': [vb, sb.verdict()],
+                                                     'checked-from-start': [vc, sc.verdict()]}), 'compared'
+    return None, 'compared'
+
+
 # -- (c) mixed trees -------------------------------------------------------------------------------
 
 def nested_checked(el, wrappers, ops):
@@ -223,6 +254,8 @@ def replay_case(rec):
         return run_unchecked(inp['element'], inp['ops'])[0]
     if m == 'identity':
         return byte_identity(inp['element'], tuple(inp['word']))[0]
+    if m == 'per-element':
+        return per_element(inp['element'], tuple(inp['word']))[0]
     if m == 'nested-checked':
         return nested_checked(inp['element'], inp['wrappers'], inp['ops'])
     return exempt_child(inp['element'], tuple(inp['word']), inp['pos'], inp['junk'])[0]
@@ -246,6 +279,15 @@ def run_shard(ctx, shard, acc):
     te = gen.types_and_elements(all_elements=not ctx.quick)
     if shard['mode'] == 'identity-exh':
         for t, els in shard['types']:
+            for w in s.dfa(t).enumerate(3, cap=6 if ctx.quick else 60):
+                if not w:
+                    continue
+                f, status = per_element(els[0], w)
+                acc.count('per-element-' + status)
+                if status == 'compared':
+                    acc.case({'mode': 'per-element', 'element': els[0], 'word': list(w)}, True, len(w))
+                if f:
+                    acc.fail(f, raise_=False)
             for w in s.dfa(t).enumerate(3, cap=400 if ctx.quick else 4000):
                 f, status = byte_identity(els[0], w)
                 acc.count('identity-' + status)
